@@ -171,6 +171,10 @@ func (c *Ctx) Violation(sig, what string, witness any) {
 	if c.unknownSigs[sig] > 1 {
 		return
 	}
+	if os.Getenv("VERIF_NOREPLAY") != "" {
+		fmt.Printf("VIOLATION property=%s replay=none\n  signature: %s\n  what: %s\n", c.ID, sig, what)
+		return
+	}
 	dir := filepath.Join(Root(), "replay", c.ID)
 	_ = os.MkdirAll(dir, 0o755)
 	h := sha256.Sum256([]byte(sig))
